@@ -692,6 +692,7 @@ def disown_fn(
         Automatically continue stopped jobs when they are disowned, equivalent to setting $AUTO_CONTINUE=True
     """
 
+    _clear_dead_jobs()
     tasks = get_tasks()
     if len(tasks) == 0:
         return "", "There are no active jobs"
